@@ -84,6 +84,7 @@ let run_item (mode : string) (t : pagetab) (item : string) : string =
 let run_case (line : string) : string =
   match words line with
   | mode :: path :: items ->
+      let mode = String.sub mode 0 1 in
       let t = load path in
       String.concat " " (Stdlib.List.map (fun it ->
         try run_item mode t it with Unprobed k -> "UNPROBED:" ^ k) items)
@@ -94,6 +95,7 @@ let run_case (line : string) : string =
 let spec_case (line : string) : string =
   match words line with
   | [mode; path; item; ans] ->
+      let mode = String.sub mode 0 1 in
       let t = load path in
       (match split_on ':' item, split_on ',' ans with
        | [a; addr; third], st :: rest ->
